@@ -192,7 +192,7 @@ PROPS["C14"] = {
         + [J(c14 + "IndexOps", n=n) for n in (0, 1, 2, 3, 4, 5, 6)]
         + [J(c14 + "Flex", maxn=4, maxcap=40, ops=2), J(c14 + "Flex", maxn=2, maxcap=24, ops=3, cfg={"MaxPaths": 40000000})]
     ),
-    "bounds": {"quick": "Diff/Intersect(+InPlace): slices of length 0..3 x 0..3 (nil included) with symbolic int elements (every duplicate pattern arises from key-equality forks), dst = nil / fresh / s1[:0]; Unique/UniqueByKey/Filter(+InPlace): length 0..4, key function and predicate uninterpreted; Equal/Index/Contains/SubSlice/Copy/Remove/Chunk/ChunkProcess/Values: length 0..4 with symbolic 64-bit start/end/length/index/chunk-size arguments (all negative and oversized values); FlexSlice: initial length 0..3 with symbolic capacity len..36 (growth and shrink thresholds), 2 arbitrary operations with symbolic indices",
+    "bounds": {"quick": "Diff/Intersect(+InPlace): slices of length 0..3 x 0..3 (nil included) with symbolic int elements (every duplicate pattern arises from key-equality forks), dst = nil / fresh / s1[:0] / s2[:0]; Unique/UniqueByKey/Filter(+InPlace): length 0..4, key function and predicate uninterpreted; Equal/Index/Contains/SubSlice/Copy/Remove/Chunk/ChunkProcess/Values: length 0..4 with symbolic 64-bit start/end/length/index/chunk-size arguments (all negative and oversized values); FlexSlice: initial length 0..3 with symbolic capacity len..36 (growth and shrink thresholds), 2 arbitrary operations with symbolic indices",
                "thorough": "lengths up to 5/6, FlexSlice 0..4 elements / capacity <= 40 / 2 operations and 0..2 elements / capacity <= 24 / 3 operations"},
     "outside": ["longer slices", "element types other than int (the functions are generic and do not inspect T beyond ==)"],
     "assumptions": ["key function and predicate are arbitrary pure functions (uninterpreted)"],
@@ -286,13 +286,17 @@ PROPS["C02"] = {
         J(c02 + "Plain", ops=2, clear=1, covers=["cleared"]),
         J(c02 + "Zero", ops=2, covers=["zero cleared"]),
         J(c02 + "Cmp", ops=2, clear=1, covers=["cleared"]),
+        J(c02 + "GrowShrink", a=2, b=2, c=1),
+        J(c02 + "GrowShrink", a=2, b=2, c=1, cmp=1),
     ],
     "thorough": [
         J(c02 + "Plain", ops=3, clear=1, covers=["cleared"], cfg={"MaxPaths": 60000000}),
         J(c02 + "Zero", ops=3, covers=["zero cleared"]),
         J(c02 + "Cmp", ops=3, clear=1, covers=["cleared"], cfg={"MaxPaths": 60000000}),
+        J(c02 + "GrowShrink", a=3, b=2, c=1, cfg={"MaxPaths": 60000000}),
+        J(c02 + "GrowShrink", a=2, b=2, c=2, cmp=1, cfg={"MaxPaths": 60000000}),
     ],
-    "bounds": {"quick": "SkipList[int,int]: 3 arbitrary operations (Set/SetNx/SetX/Remove/read; Clear in a 2-operation variant), SkipListWithCmp[int,int]: 2 arbitrary operations incl. Clear; with symbolic 64-bit keys and values and symbolic tower heights (every outcome of the random level choice, including towers that grow the top level and removals that shrink it), followed by a full observation: Len, Keys, Values, Head, Get/GetNode of a fresh symbolic key, Range and All with early stop after 1 or 2 callbacks, RangeWithStart(s) and RangeWithRange(s,e) for fresh symbolic bounds; comparator family: order of (key xor m) for an arbitrary 64-bit m, ascending or descending; zero-value SkipList: optional Clear first, then 2 arbitrary operations incl. Clear and the full observation",
+    "bounds": {"quick": "SkipList[int,int]: 3 arbitrary operations (Set/SetNx/SetX/Remove/read; Clear in a 2-operation variant), SkipListWithCmp[int,int]: 2 arbitrary operations incl. Clear; with symbolic 64-bit keys and values and symbolic tower heights (every outcome of the random level choice, including towers that grow the top level and removals that shrink it), followed by a full observation: Len, Keys, Values, Head, Get/GetNode of a fresh symbolic key, Range and All with early stop after 1 or 2 callbacks, RangeWithStart(s) and RangeWithRange(s,e) for fresh symbolic bounds; comparator family: order of (key xor m) for an arbitrary 64-bit m, ascending or descending; zero-value SkipList: optional Clear first, then 2 arbitrary operations incl. Clear and the full observation; grow/shrink scripts: 2 inserts, 2 removals, 1 insert with symbolic keys and tower heights (top level grows, shrinks and grows again) followed by Len/Keys/Values/Get",
                "thorough": "3 operations incl. Clear for both lists; zero value: 3 operations"},
     "outside": ["more operations", "key types other than int (same generic code)", "comparators that are not injective total orders of this family"],
     "assumptions": ["math/rand outputs are arbitrary 64-bit words (stub); the comparator is a strict total order on keys"],
@@ -487,6 +491,7 @@ PROPS["C18"] = {
         J(c18 + "Knapsack", n=3, maxw=6, maxv=9, maxW=5),
         J(c18 + "Knapsack", n=2, maxw=6, maxv=9, maxW=5, breaker=1),
         J(c18 + "Knapsack", n=0), J(c18 + "Knapsack", n=1),
+        J(c18 + "Knapsack", n=5, maxw=3, maxv=10, maxW=6, cfg={"MaxPaths": 60000000, "Witnesses": 4}),
         J(c18 + "SubsetSum", n=3, maxv=6, maxM=8, map_order="insertion", covers=["overflow entry"]),
         J(c18 + "SubsetSum", n=2, maxv=6, maxM=8, map_order="two", covers=["overflow entry"]),
         J(c18 + "SubsetSum", n=2, maxv=6, maxM=8, breaker=1, map_order="insertion"),
@@ -503,7 +508,7 @@ PROPS["C18"] = {
         J(c18 + "Cliques", n=5, map_order="two", cfg={"MaxPaths": 60000000}),
         J(c18 + "Cliques", n=3, map_order="rotations"),
     ],
-    "bounds": {"quick": "Knapsack: 0..3 items with symbolic weights 0..6 and values 1..9, limit symbolic 0..5 (items heavier than the limit, equal weights/values, empty input), optional arbitrary tie-breaker; FindDpSolvers/Best/BestAllowMinOverflow: 0..3 items with symbolic values 1..6, limit symbolic 0..8, overflow allowed or not, optional arbitrary tie-breaker, map iteration forward (3 items) and forward/reversed (2 items); GetMaximalCliques: all undirected simple graphs on 1..4 vertices (each edge a symbolic boolean), node-map iteration forward and reversed; all compared with brute force over all subsets evaluated branch-free",
+    "bounds": {"quick": "Knapsack: 0..3 items with symbolic weights 0..6 and values 1..9, limit symbolic 0..5, and 5 items with weights 0..3, values 1..10, limit 0..6 (long enough for table entries to share a backing array) (items heavier than the limit, equal weights/values, empty input), optional arbitrary tie-breaker; FindDpSolvers/Best/BestAllowMinOverflow: 0..3 items with symbolic values 1..6, limit symbolic 0..8, overflow allowed or not, optional arbitrary tie-breaker, map iteration forward (3 items) and forward/reversed (2 items); GetMaximalCliques: all undirected simple graphs on 1..4 vertices (each edge a symbolic boolean), node-map iteration forward and reversed; all compared with brute force over all subsets evaluated branch-free",
                "thorough": "4 items, 5 vertices, every rotation of the map iteration order for the small cases"},
     "outside": ["more items / vertices", "directed or self-loop graphs", "map iteration orders other than those enumerated (Go promises none; forward, reversed and rotations are explored)"],
     "assumptions": ["weights non-negative and values positive as in the property", "the tie-breaker is an arbitrary function of the candidate lengths (uninterpreted)"],
@@ -548,6 +553,9 @@ PROPS["C09"] = {
     "level": "model_checking",
     "quick": (
         [J(c09 + "CBC", np=n, ns=s) for (n, s) in ((0, 0), (1, 1), (3, 2), (15, 1), (16, 3), (17, 1))]
+        # secret lengths at which the 16+len(secret)+8 byte derivation buffer crosses 64, 128 and 256 bytes
+        + [J(c09 + "CBC", np=1, ns=s) for s in (40, 41, 104, 105, 232, 233)]
+        + [J(c09 + "GCM", np=1, ns=s, na=1) for s in (41, 105)]
         + [J(c09 + "GCM", np=n, ns=s, na=a) for (n, s, a) in ((0, 1, 0), (1, 1, 1), (3, 2, 2), (17, 1, 1))]
         + [J(c09 + "Garbage", n=n) for n in (0, 1, 8, 15, 16, 17, 31, 32, 33, 40)]
         + [J(c09 + "Stream", np=n, cuts=c, covers=["short read", "data returned together with EOF"]) for (n, c) in ((1, 1), (3, 2))]
@@ -559,7 +567,7 @@ PROPS["C09"] = {
         + [J(c09 + "Garbage", n=n) for n in range(0, 41)]
         + [J(c09 + "Stream", np=n, cuts=c) for (n, c) in ((0, 1), (1, 1), (3, 2), (6, 3), (17, 2))]
     ),
-    "bounds": {"quick": "plaintexts of 0, 1, 3, 15, 16, 17 symbolic bytes, secrets of 0..3 and additional data of 0..2 symbolic bytes (string and []byte forms), symbolic 8-byte salt; Encrypt/GCMEncrypt = base64/hex of the raw message; arbitrary text of <= 4 characters offered to the text wrappers Decrypt/GCMDecrypt; every single-byte change of the decoded GCM message (magic, salt, ciphertext, tag), of the secret or of the additional data; arbitrary input of 0, 1, 8, 15..17, 31..33, 40 symbolic bytes to every decryption entry point; streams of 0..3 plaintext bytes with up to 2 short reads at arbitrary positions per reader and data optionally returned together with EOF",
+    "bounds": {"quick": "plaintexts of 0, 1, 3, 15, 16, 17 symbolic bytes, secrets of 0..3 symbolic bytes and of 40, 41, 104, 105, 232, 233 symbolic bytes (where the key-derivation buffer crosses 64/128/256 bytes), additional data of 0..2 symbolic bytes (string and []byte forms), symbolic 8-byte salt; Encrypt/GCMEncrypt = base64/hex of the raw message; arbitrary text of <= 4 characters offered to the text wrappers Decrypt/GCMDecrypt; every single-byte change of the decoded GCM message (magic, salt, ciphertext, tag), of the secret or of the additional data; arbitrary input of 0, 1, 8, 15..17, 31..33, 40 symbolic bytes to every decryption entry point; streams of 0..3 plaintext bytes with up to 2 short reads at arbitrary positions per reader and data optionally returned together with EOF",
                "thorough": "plaintexts up to 33 bytes, garbage of every length 0..40, streams up to 17 bytes with 3 short reads"},
     "outside": ["Decrypt/GCMDecrypt applied to a real ciphertext TEXT: the ciphertext bytes are outputs of uninterpreted functions, so the base64/hex character decoders fork on every character (2^40+ paths); the raw-message functions they delegate to (SaltBySecretCBCDecrypt/SaltBySecretGCMDecrypt) are checked instead, and the text form of the output is checked on the encrypt side", "interoperability with the openssl binary beyond 'same byte layout and same MD5 derivation chain' (MD5/AES/GCM/CTR are uninterpreted functions)", "more than 3 short reads per stream", "writers that accept fewer bytes than offered (io.Writer contract forbids it without an error)"],
     "assumptions": ["MD5 is an uninterpreted function per input length; two derivations with different secret/salt give different keys (matching of Seal/Open is syntactic, i.e. no MD5 collision is assumed)", "AES-GCM authenticity: Open succeeds exactly on the output of a Seal with the same key, nonce and additional data", "AES-CTR is a keystream determined by key, IV and position", "crypto/rand delivers an arbitrary salt"],
